@@ -1,7 +1,7 @@
 (* C01 -- every residue is a verbatim, re-indexed copy of its force-field block.
    Statements only; every proof is `exact <lemma>`; Print Assumptions under each. *)
 From Coq Require Import ZArith String List Bool.
-From PV Require Import Blocks C01_blocks.
+From PV Require Import Blocks C01_blocks Mods Gen_mods C01_mods.
 Import ListNotations.
 Open Scope Z_scope.
 
@@ -31,7 +31,59 @@ Theorem C01_interactions_once_per_instance : forall idx blocks,
 Proof. exact spec_inters_params. Qed.
 Print Assumptions C01_interactions_once_per_instance.
 
+(* ---- terminal modifications (apply_mod), with the applicability guard as the source states it
+   now (Gen_mods.mod_applicable: the residue name is one of the listed protein residue names) ---- *)
+
+(* a modification changes nothing but the atoms it names in its target residue: for every table
+   of modifications, every molecule and every list of (residue id, modification) targets, the
+   atoms keep their keys and order; an atom is unchanged unless some applicable target's residue
+   contains it AND that modification lists its name; an attribute is unchanged unless such a
+   modification lists it; interactions are only appended, on atoms of an applicable target *)
+Theorem C01_modification_changes_only_named_atoms_of_target : forall table residues m ts m',
+  apply_mod mod_applicable table residues m ts = Some m' ->
+  map at_key (ml_atoms m') = map at_key (ml_atoms m) /\
+  Forall2 (fun a a' =>
+    ((forall md, ~ acts_on mod_applicable table residues ts (at_key a) md) -> a' = a) /\
+    ((forall md, acts_on mod_applicable table residues ts (at_key a) md -> mod_lookup (md_atoms md) (at_name a) = None) -> a' = a) /\
+    (forall k, (forall md, acts_on mod_applicable table residues ts (at_key a) md ->
+                           forall n upd, In (n, upd) (md_atoms md) -> dget upd k = None) ->
+               dget (at_attrs a') k = dget (at_attrs a) k)) (ml_atoms m) (ml_atoms m') /\
+  exists extra, ml_inters m' = (ml_inters m ++ extra)%list /\
+                forall i, In i extra -> exists md, forall x, In x (in_atoms i) -> acts_on mod_applicable table residues ts x md.
+Proof. exact (apply_mod_frame mod_applicable). Qed.
+Print Assumptions C01_modification_changes_only_named_atoms_of_target.
+
+(* targets that are not applicable (residue name not in the list, e.g. one that merely starts
+   like a protein residue name) leave the molecule exactly as it was *)
+Theorem C01_modification_not_applicable_is_identity : forall table residues m ts m',
+  apply_mod mod_applicable table residues m ts = Some m' ->
+  (forall t r, In t ts -> find_residue residues (fst t) = Some r -> mod_applicable (rs_resname r) = false) ->
+  m' = m.
+Proof. exact (apply_mod_not_applicable mod_applicable). Qed.
+Print Assumptions C01_modification_not_applicable_is_identity.
+
+(* ... and the named atoms of an applicable target do receive the listed values *)
+Theorem C01_modification_sets_listed_values : forall table residues m t m' md r,
+  apply_mods mod_applicable table residues m [t] = Some m' ->
+  find_modif table (snd t) = Some md -> find_residue residues (fst t) = Some r ->
+  rs_from_itp r = true -> mod_applicable (rs_resname r) = true ->
+  Forall2 (fun a a' => In (at_key a) (rs_atoms r) -> forall upd, mod_lookup (md_atoms md) (at_name a) = Some upd ->
+                       forall k v, dlast upd k = Some v -> dget (at_attrs a') k = Some v) (ml_atoms m) (ml_atoms m').
+Proof. exact (single_target_sets mod_applicable). Qed.
+Print Assumptions C01_modification_sets_listed_values.
+
+(* applicable means: exactly one of the listed names *)
+Theorem C01_applicable_is_exact_membership : forall rn, mod_applicable rn = true <-> In rn mod_applicable_names.
+Proof. exact applicable_exact. Qed.
+Print Assumptions C01_applicable_is_exact_membership.
+
 Open Scope string_scope.
+Example C01_mods_nonvacuous :
+  apply_mod (fun rn => existsb (String.eqb rn) ["GLY"; "LYS"]) ex_table ex_res ex_mol [(1%Z, "N-ter"); (2%Z, "N-ter")] =
+  Some {| ml_atoms := [{| at_key := 0; at_attrs := [("atomname", "BB"); ("atype", "Qd"); ("charge", "1.0")] |};
+                       ex_atom 1 "SC1" "C3"; ex_atom 2 "BB" "P3"; ex_atom 3 "SC1" "C1"]; ml_inters := [] |}.
+Proof. exact ex_mods. Qed.
+
 Example C01_nonvacuous :
   let a n := {| a_name := n; a_type := "P1"; a_resid := 1; a_resname := "RA"; a_cg := 1; a_charge := "0"; a_mass := "72" |} in
   let b := {| b_atoms := [a "BB"; a "SC"]; b_inters := [{| i_sec := "bonds"; i_atoms := [0; 1]; i_params := ["1"; "0.3"]; i_meta := [] |}]; b_nrexcl := 1 |} in
